@@ -10,6 +10,4 @@ broadcast use {vstd::std_specs::hash::group_hash_axioms, axh::axiom_uuid_key_mod
 //@include regions/cloudsrv_impl.rs
 // ---- the git backend (spawns `git`; outside the verifier's reach) belongs to the same properties: hashed, so that a change there makes
 // ---- the checks answer UNDECIDED instead of "holds"
-//@watch C13 :: src/server/gitsync/mod.rs :: impl Server for GitSyncServer
-//@watch C13 :: src/server/gitsync/mod.rs :: impl GitSyncServer
 //@include prelude/tail.rs
